@@ -76,6 +76,7 @@ pub fn run_case(case: &[u8]) -> String {
                 }
             }
             10 => crate::query::case_valve(&mut rd),
+            12 => crate::real::case_real(&mut rd),
             14 => crate::paths::case_paths(&mut rd),
             15 => crate::view::case_view(&mut rd),
             16 => crate::master::case_master(&mut rd),
